@@ -36,6 +36,7 @@ MECHANISMS = (
     "split:empty_list:N>MAX_ITER*b",
     "lazycall:empty_extra:N>MAX_ITER*b",
     "merge:axis=-1:nested",
+    "lazy_cache:nested_stages_share_cache_file",
 )
 CAP = 40
 
@@ -1228,6 +1229,221 @@ def cached_data_part(ctx, quick):
 
 
 # --------------------------------------------------------------------------
+# cache layers of HeavyCall stages (spec/LazyCache.tla), B1 replay with real tf.data cache files
+# --------------------------------------------------------------------------
+NESTED_KEY = "lazy_cache:nested_stages_share_cache_file"
+BASE_SIZES = {1: 3, 2: 2, 3: 2}
+
+
+def _cfg_cache(ctx, name, maxobjs, maxmerges, nested, dirs, depth, invs, nbase=2):
+    p = os.path.join(ctx.work, "lazycache_%s.cfg" % name)
+    with open(p, "w") as f:
+        f.write(
+            "CONSTANTS NBase = %d\n Batches = {2, 3}\n MaxObjs = %d\n MaxMerges = %d\n AllowNested = %s\n MergeNames = TRUE\n Dirs = {%s}\n MaxDepth = %d\n"
+            % (nbase, maxobjs, maxmerges, "TRUE" if nested else "FALSE", ", ".join(map(str, dirs)), depth)
+        )
+        f.write("INIT Init\nNEXT Next\nCONSTRAINT DepthBound\n")
+        for i in invs:
+            f.write("INVARIANT %s\n" % i)
+        f.write("CHECK_DEADLOCK FALSE\n")
+    return p
+
+
+class CacheLayerWorld:
+    """real LazyCall(HeavyCall) objects and a real cache directory driven along a behaviour of LazyCache.tla"""
+
+    def __init__(self, D, cache_dir):
+        self.D = D
+        self.dir = cache_dir
+        os.makedirs(cache_dir, exist_ok=True)
+        self.objs, self.parts = [], []
+        for i in sorted(BASE_SIZES)[:2]:
+            self.add_base(i)
+
+    @staticmethod
+    def stage(x):
+        r = dict(x)
+        r["lvl"] = x["lvl"] + 1.0
+        return r
+
+    @staticmethod
+    def ev(i):
+        return 10.0 * i + np.arange(1, BASE_SIZES[i] + 1, dtype=np.float64)
+
+    def add_base(self, i):
+        D = self.D
+        e = self.ev(i)
+        o = D.LazyCall(D.HeavyCall(self.stage), {"ev": e, "lvl": 0.0 * e})
+        o["w"] = 1000.0 * i + e
+        o.prefetch = 0
+        self.objs.append(o)
+        self.parts.append([i])
+
+    def step(self, act, args):
+        D = self.D
+        if act == "SetCachedFile":
+            o, d = args
+            self.objs[o - 1].set_cached_file(self.dir if d == 2 else "", "n%d" % o)
+            return None
+        if act == "Merge":
+            o1, o2 = args
+            self.objs.append(D.data_merge(self.objs[o1 - 1], self.objs[o2 - 1]))
+            self.parts.append(self.parts[o1 - 1] + self.parts[o2 - 1])
+            return None
+        if act == "Replace":
+            (o,) = args
+            idn = len(self.objs) + 1
+            src = self.objs[o - 1]
+            if "w" in src.extra:
+                e = np.concatenate([self.ev(i) for i in self.parts[o - 1]])
+                new = D.data_replace(src, "w", 1000.0 * (10 * idn) + e)
+            else:
+                new = src.copy()
+            self.objs.append(new)
+            self.parts.append(list(self.parts[o - 1]))
+            return None
+        if act == "Wrap":
+            (o,) = args
+            new = D.LazyCall(D.HeavyCall(self.stage), self.objs[o - 1])
+            new.prefetch = 0
+            self.objs.append(new)
+            self.parts.append(list(self.parts[o - 1]))
+            return None
+        if act == "Use":
+            o, b = args
+            obj = self.objs[o - 1]
+            items = [D.data_to_numpy(i) for i in take(D.data_split(obj, b), 40)]
+            ok = bool(items)
+            for it in items:
+                e = np.asarray(it["ev"])
+                for k, v in it.items():
+                    v = np.asarray(v)
+                    if v.shape != e.shape or (k == "w" and not np.array_equal(v % 1000.0, e)):
+                        ok = False
+            eager = {k: np.asarray(v) for k, v in D.data_to_numpy(obj.eval()).items()}
+            if items:
+                m = {k: np.asarray(v) for k, v in D.data_to_numpy(D.data_merge(*items)).items()}
+                if set(m) != set(eager) or any(m[k].shape != eager[k].shape or not np.array_equal(m[k], eager[k]) for k in eager):
+                    ok = False
+                read_lvl = int(np.asarray(items[0]["lvl"]).reshape(-1)[0])
+                seen = np.concatenate([np.asarray(it["ev"]).reshape(-1) for it in items])
+                read_parts = []
+                for v in seen:
+                    q = int(v // 10)
+                    if not read_parts or read_parts[-1] != q:
+                        read_parts.append(q)
+                read_b = max(int(np.asarray(it["ev"]).shape[0]) for it in items)
+            else:
+                read_lvl, read_parts, read_b = 0, [], 0
+            exp_e = np.concatenate([self.ev(i) for i in self.parts[o - 1]])
+            eager_ok = np.array_equal(eager["ev"], exp_e) and ("w" not in eager or np.array_equal(eager["w"] % 1000.0, exp_e))
+            return {"ok": ok, "eager_ok": bool(eager_ok), "read": (read_lvl, tuple(read_parts)), "max_batch": read_b, "files": sorted(set(f.split(".")[0] for f in os.listdir(self.dir)))}
+        raise tlc.MachineryError("unknown LazyCache action %s" % act)
+
+
+def _cache_sig(pre, lab, post):
+    """equivalence class of a Use edge in the model's case analysis"""
+    (act, (o, b)) = lab
+    objs = pre["objs"]
+    me = objs[o - 1]
+    inner = me["inner"] != 0
+    is_inner = any(x["inner"] == o for x in objs)
+    sib = any(i != o - 1 and x["x"] == me["x"] and x["inner"] == me["inner"] for i, x in enumerate(objs))
+    mem = [m for m in me["mem"] if m[0] == b]
+    same_name = sum(1 for i, x in enumerate(objs) if i != o - 1 and x["dir"] == 2 and me["dir"] == 2 and x["name"] == me["name"])
+    files = pre["files"]
+    other_batch_file = any(f[0][0] == me["name"] and f[0][1] != b for f in files)
+    ob = post["obs"]
+    return (len(me["x"]), inner, is_inner, sib, me["dir"], bool(mem), bool(mem and mem[0][1] != ()), min(same_name, 1), min(len(files), 2), other_batch_file, ob["fromfile"], ob["ok"], ob["read"] == ob["own"])
+
+
+def _hist_cache(path):
+    short_name = {"Use": "U", "SetCachedFile": "S", "Merge": "M", "Replace": "R", "Wrap": "W"}
+    return ";".join(short_name[a] + ".".join(str(x) for x in g) for _, (a, g), _ in path)
+
+
+def lazy_cache_part(ctx, binder, quick):
+    D = binder.D
+    flat = ["TypeOK", "UseFaithfulFlat", "KeysDistinctFlat", "FilesTruthfulFlat"]
+    depth = 6 if quick else 7
+    dot = os.path.join(ctx.work, "lazycache.dot")
+    r = tlc.run("LazyCache", _cfg_cache(ctx, "graph", 3, 1, True, (2,), depth, flat), work=ctx.work, workers=1, timeout=1800, dump_dot=dot)
+    if r.violation:
+        raise tlc.MachineryError("LazyCache violates its own theorem %s: %s" % (r.violation, _hist_cache([(None, (a, tuple(g)), None) for a, g, _ in r.trace[1:]])))
+    r.coverage = final_coverage(r)
+    ctx.tlc(r, "LazyCache objs<=3 merges<=1 nested depth<=%d" % depth, vacuity_actions=["Use", "SetCachedFile", "Merge", "Replace", "Wrap"])
+    if not quick:
+        for nm, mo, mm, nested, dirs, dp in (("full3", 3, 1, True, (1, 2), 1000), ("deep4", 4, 2, False, (2,), 7)):
+            r2 = tlc.run("LazyCache", _cfg_cache(ctx, nm, mo, mm, nested, dirs, dp, flat), work=ctx.work, workers=12, timeout=2400)
+            if r2.violation:
+                raise tlc.MachineryError("LazyCache (%s) violates its own theorem %s" % (nm, r2.violation))
+            r2.coverage = final_coverage(r2)
+            ctx.tlc(r2, "LazyCache %s objs<=%d merges<=%d dirs=%s depth<=%d" % (nm, mo, mm, list(dirs), dp), vacuity_actions=["Use", "Merge"])
+    states, adj, init, parent, depth_of = _graph(dot)
+    os.remove(dot)
+    # one (thorough: several) representative Use edge per class of the model's case analysis
+    per_class = 1 if quick else 6
+    classes = {}
+    for u in sorted(adj, key=lambda k: (depth_of[k], k)):
+        for lab, v in adj[u]:
+            if lab[0] != "Use":
+                continue
+            sig = _cache_sig(states[u], lab, states[v])
+            lst = classes.setdefault(sig, [])
+            if len(lst) < per_class:
+                lst.append((u, lab, v))
+    wd = os.path.join(ctx.work, "lazycache")
+    walks = uses = drift = nested_hits = 0
+    validated = 0
+    import shutil
+
+    for sig in sorted(classes, key=str):
+        for e in classes[sig]:
+            path = _path_to(parent, e[0]) + [e]
+            walks += 1
+            cdir = os.path.join(wd, "w%d" % walks) + os.sep
+            world = CacheLayerWorld(D, cdir)
+            try:
+                for i, (u, (act, args), v) in enumerate(path):
+                    hist = _hist_cache(path[: i + 1])
+                    got = world.step(act, args)
+                    if got is None:
+                        continue
+                    uses += 1
+                    want = states[v]["obs"]
+                    o = args[0]
+                    in_chain = states[v]["objs"][o - 1]["inner"] != 0 or any(x["inner"] == o for x in states[v]["objs"])
+                    if not got["eager_ok"]:
+                        _viol(ctx, "lazy_cache:%s:eval" % hist, {"history": hist})
+                        break
+                    if not got["ok"]:
+                        if want["ok"]:
+                            _viol(ctx, "lazy_cache:%s" % hist, {"history": hist, "delivered(level,samples)": got["read"], "own(level,samples)": [want["own"][0], list(want["own"][1])], "cache_files": got["files"]})
+                        elif in_chain:
+                            nested_hits += 1
+                            _viol(ctx, NESTED_KEY, {"history": hist, "delivered(level,samples)": got["read"], "own(level,samples)": [want["own"][0], list(want["own"][1])], "cache_files": got["files"]})
+                        else:
+                            _viol(ctx, "lazy_cache:%s" % hist, {"history": hist, "note": "loss also predicted by the model outside nested stages"})
+                        break
+                    if not want["ok"]:
+                        drift += 1  # the model predicts a stale file, the code delivers the right content
+                        if drift <= 3:
+                            ctx.notes.append("model_drift: LazyCache predicts a stale cache file at %s, the code delivers the object's own content" % hist)
+                        break
+                    validated += 1
+                    if got["read"] != (want["read"][0], tuple(want["read"][1])):
+                        drift += 1
+            except Exception as ex:  # noqa: BLE001
+                _viol(ctx, "lazy_cache:%s:raise" % _hist_cache(path), {"error": repr(ex)[:300]})
+            finally:
+                shutil.rmtree(cdir, ignore_errors=True)
+    ctx.count(uses, distinct_key=("lazy_cache", len(classes)))
+    ctx.part("lazy_cache", graph_states=len(states), use_edge_classes=len(classes), walks=walks, uses_observed=uses, nested_finding_hits=nested_hits, model_drift=drift)
+    ctx.sample({"op": "LazyCache", "history": "S1.2;U1.2;M1.2;U3.2", "meaning": "file cache set on sample 1, used at batch 2 (file n1_2 written), merged with sample 2 (name n1_n0... distinct file), merge used at batch 2: own content, 5 events"})
+    return validated
+
+
+# --------------------------------------------------------------------------
 # real MAX_ITER boundary + recorded calls of the repository's tests  (B2)
 # --------------------------------------------------------------------------
 def shape_of(x):
@@ -1712,10 +1928,12 @@ def run(ctx):
     v3 = root_part(ctx)
     v4 = lazy_objects_part(ctx, binder, quick)
     ctx.log("LazyCall object histories replayed: %d edges" % v4)
+    v6 = lazy_cache_part(ctx, binder, quick)
+    ctx.log("LazyCall cache-layer histories replayed: %d uses" % v6)
     v5 = cached_data_part(ctx, quick)
     ctx.log("cached-data sessions replayed: %d observations" % v5)
     ctx.cov["exhaustive"] = True
-    ctx.cov["traces_validated_against_impl"] = binder.validated + v1 + v2 + v3 + v4 + v5
+    ctx.cov["traces_validated_against_impl"] = binder.validated + v1 + v2 + v3 + v4 + v5 + v6
     ctx.cov["rule"] = (
         "DataOps: every tree of <=%d dict/list/tuple/leaf nodes (leaves 1-d or N x 2, empty containers included) x N<=%d "
         "(N<=%d for %d-node trees) x (batch 1..N+1 | every boolean mask | every path) is one TLC case (state space = shapes + cases + "
